@@ -19,7 +19,10 @@ fn check_verdict(spec: &ExchangeSpec, s: &mut Sched, st: &mut Stats) -> Result<(
     let (obs, term) = match run_exchange(spec, None, &stream, s)? {
         Outcome::Done(o, t) => (o, t),
         Outcome::Premature(_) => return Err("harness: premature".into()),
-        Outcome::FollowedWithoutInheritedExpect => return Err("harness: outcome of a followed flow on a fresh one".into()),
+        Outcome::NotCompared(why) => {
+            st.class(why);
+            return Ok(());
+        }
     };
     st.evals(1);
     check_against_truth(spec, &obs, true, stream.len())?;
@@ -66,7 +69,7 @@ fn check_verdict(spec: &ExchangeSpec, s: &mut Sched, st: &mut Stats) -> Result<(
                             st.evals(1);
                         }
                         Outcome::Premature(_) => return Err("harness: premature".into()),
-                        Outcome::FollowedWithoutInheritedExpect => st.class("second_hop_request_without_the_inherited_expect"),
+                        Outcome::NotCompared(why) => st.class(why),
                     }
                 }
             }
